@@ -269,6 +269,10 @@ def date_cell(rng):
     return None
 
 
+STAMP_TEXTS = ['2024-01-31T10:00:00+05:00', '2024-02-10T10:00:00Z', '2024-03-01 12:00 UTC', 'Wed, 31 Jan 2024 10:00:00 +0000', '2024-01-15T23:59:59-08:00',
+               '2024-01-31 10:00:00+00:00', '10:00 PM PST', '1900-01-20T00:00:00+01:00', 'Sat Oct 11 17:13:46 UTC 2003']
+
+
 def run_dates(ctx, bi):
     """date-time cells (with and without a time part) in the criteria range, the criterion a date cell handed over as a plain value or
     a date written year-month-day after an operator: a cell meets '=' only when it is that very moment"""
@@ -322,8 +326,18 @@ def run_dates(ctx, bi):
         r.ev()
         r.count('sums_over_a_target_range_with_a_date')
         if not o.ok and o.kind != pipeline.LIB_EXC:
-            report(r, ID, None, {'formula': f, 'cell': a, 'sheet': 0, 'overrides': ov, 'spec': wbspec.spec(wbspec.sheet('S', cells))}, o.brief(),
+            report(r, ID, None, {'formula': f, 'cell': a, 'sheet': 0, 'overrides': ov, 'spec': wbspec.spec(wbspec.sheet('S', cells)), 'demand': 'no-foreign-exception'}, o.brief(),
                    'a value (whatever a date adds to it)', monitor='criteria-reference')
+    # timestamps as other systems export them - TEXT cells with a UTC offset, a zone name, RFC 2822 - IN THE CRITERIA RANGE next to real date
+    # cells: whether such a text meets a date criterion is not stated, but the aggregate is a value, never a failure of the comparison
+    ov = list(vals[-2]) + [(0, f'A{row}', rng.choice(STAMP_TEXTS)) for row in rng.sample(range(1, 9), 3)]
+    for a in forms:
+        o = book.value(0, a, ov)
+        r.ev()
+        r.count('criteria_ranges_with_timestamp_texts')
+        if not o.ok and o.kind != pipeline.LIB_EXC:
+            report(r, ID, None, {'formula': cells[a], 'cell': a, 'sheet': 0, 'overrides': ov, 'spec': wbspec.spec(wbspec.sheet('S', cells)), 'demand': 'no-foreign-exception'}, o.brief(),
+                   'a value (whatever a timestamp text is taken for)', monitor='criteria-reference')
 
 
 CLOCKS = [dt.datetime(2024, 3, 1, 9, 0), dt.datetime(2024, 3, 15, 9, 0), dt.datetime(2024, 3, 31, 23, 59), dt.datetime(2024, 2, 29, 12, 0), dt.datetime(2024, 4, 30, 0, 0),
@@ -435,6 +449,14 @@ def run_shard(shard, ctx):
     if isinstance(shard, dict) and 'mixed' in shard:
         from ..mixed import run_mixed
         return run_mixed(ctx, ID, shard['n'])
+    if 'replay' in shard and shard['replay'].get('demand') == 'no-foreign-exception':
+        c = shard['replay']
+        book = pipeline.Book(c['spec'], ctx.workdir, name='replay')
+        o = book.value(c['sheet'], c['cell'], [(s_, a_, wbspec.dec(v_)) for (s_, a_, v_) in c['overrides']]) if book.cls is not None else book.whole
+        ctx.r.ev()
+        if not o.ok and o.kind != pipeline.LIB_EXC:
+            report(ctx.r, ID, None, c, o.brief(), 'a value or a library exception', monitor='criteria-reference')
+        return
     if 'replay' in shard:
         return replay_case(ctx, ID, shard['replay'], exact=False, classify=classify)
     if 'rows' in shard:
